@@ -181,12 +181,28 @@ def execute(check, tier):
         last = time.time()
         it = pool.imap_unordered(_run_task, list(enumerate(tasks)), chunksize=getattr(check, "chunksize", 1))
         stall = int(os.environ.get("VERIF_STALL", "0")) or getattr(check, "stall_timeout", 1500)
+        pids0 = {p.pid for p in pool._pool}
+        waited = 0
         while True:
             try:
-                idx, r, err = it.next(timeout=stall)
+                idx, r, err = it.next(timeout=20)
+                waited = 0
             except StopIteration:
                 break
             except mp.TimeoutError:
+                waited += 20
+                dead = [p.pid for p in pool._pool if p.pid not in pids0]
+                if dead and getattr(check, "maxtasksperchild", None) is None:
+                    # the pool replaced a worker: one died (a crash of the interpreter inside the code under test, e.g. a
+                    # segfault in a solver binding); its task will never come back
+                    print("HARNESS-ERROR property=%s a worker process died (%d/%d tasks done); unfinished tasks follow" % (
+                        check.id, done, len(tasks)))
+                    for i in [i for i in range(len(tasks)) if results[i] is None][:20]:
+                        print("    unfinished task %d: %s" % (i, repr(tasks[i])[:300]))
+                    pool.terminate()
+                    return 2
+                if waited < stall:
+                    continue
                 # no task finished for `stall` seconds: something inside the code under test does not return
                 print("HARNESS-ERROR property=%s no task completed within %d s (%d/%d done): the code under test hangs" % (
                     check.id, stall, done, len(tasks)))
